@@ -175,6 +175,14 @@ func (h *hostileReader) Read(p []byte) (int, error) {
 	return n, nil
 }
 
+// plainReader hides every optional method (Len, ReadByte, WriteTo, Seek …) of the reader it wraps: files, sockets
+// and HTTP bodies look like this to a parser.
+type plainReader struct{ r io.Reader }
+
+func (p plainReader) Read(b []byte) (int, error) { return p.r.Read(b) }
+
+func plain(b []byte) io.Reader { return plainReader{bytes.NewReader(b)} }
+
 // ---------------------------------------------------------------- CBOR head discovery / surgery
 
 type headPos struct {
@@ -347,6 +355,9 @@ func run(r *mon.Run) {
 			return
 		}
 		guard(r, "bundle.Read", class, m, len(m), func() { bundle.Read(bytes.NewReader(m)) })
+		if nCalls%4 == 0 {
+			guard(r, "bundle.Read(plain io.Reader)", class, m, len(m), func() { bundle.Read(plain(m)) })
+		}
 	}
 	var bundleSeeds [][]byte
 	for i := 0; i < 6; i++ {
@@ -437,6 +448,7 @@ func run(r *mon.Run) {
 				}
 			})
 			guard(r, "ReadExchangePrologue", class, m, len(m), func() { signedexchange.ReadExchangePrologue(bytes.NewReader(m)) })
+			guard(r, "ReadExchange(plain io.Reader)", class, m, len(m), func() { signedexchange.ReadExchange(plain(m)) })
 		}
 		mutate(r, fmt.Sprintf("sxg%d", i), s, hdrFrom, hdrFrom+len(hdr), nRandom, each)
 		// prologue length fields
@@ -498,6 +510,7 @@ func run(r *mon.Run) {
 				return
 			}
 			guard(r, "ReadCertChain", class, m, len(m), func() { certurl.ReadCertChain(bytes.NewReader(m)) })
+			guard(r, "ReadCertChain(plain io.Reader)", class, m, len(m), func() { certurl.ReadCertChain(plain(m)) })
 			if strings.HasPrefix(class, "truncate") || class == "honest" {
 				hr := &hostileReader{b: m, mode: "one-byte"}
 				guard(r, "ReadCertChain", "reader=one-byte/"+kindOf(class), m, len(m), func() { certurl.ReadCertChain(hr) })
@@ -639,7 +652,7 @@ func run(r *mon.Run) {
 			}
 			for _, limit := range []uint64{16384, 16, 1 << 20} {
 				guard(r, "mice.NewDecoder+Read", fmt.Sprintf("%s/limit=%d", class, limit), m, len(m), func() {
-					d, err := enc.NewDecoder(bytes.NewReader(m), digest, limit)
+					d, err := enc.NewDecoder(plain(m), digest, limit)
 					if err == nil {
 						io.Copy(io.Discard, d)
 					}
@@ -701,6 +714,7 @@ func run(r *mon.Run) {
 			x := append([]byte{byte(ib)}, fol...)
 			for name, f := range decs {
 				guard(r, "cbor.Decoder."+name, fmt.Sprintf("ib=%02x", ib), x, len(x), func() { f(cbor.NewDecoder(bytes.NewReader(x))) })
+				guard(r, "cbor.Decoder."+name+"(plain io.Reader)", fmt.Sprintf("ib=%02x", ib), x, len(x), func() { f(cbor.NewDecoder(plain(x))) })
 			}
 		}
 	}
@@ -711,8 +725,19 @@ func run(r *mon.Run) {
 			}
 			// a string head declaring n bytes followed by 1 MiB of data
 			x := append(rcbor.AppendHead(nil, mj, n), bytes.Repeat([]byte{'x'}, 1<<20)...)
-			guard(r, "cbor.Decoder.DecodeByteString/TextString", fmt.Sprintf("declares=2^%d,delivers=1MiB", bits(n)), x[:9], len(x), func() {
-				d := cbor.NewDecoder(bytes.NewReader(x))
+			for _, mk := range []func([]byte) io.Reader{func(b []byte) io.Reader { return bytes.NewReader(b) }, plain} {
+				mk := mk
+				guard(r, "cbor.Decoder.DecodeByteString/TextString", fmt.Sprintf("declares=2^%d,delivers=1MiB,plain=%v", bits(n), fmt.Sprintf("%T", mk(nil)) != "*bytes.Reader"), x[:9], len(x), func() {
+					d := cbor.NewDecoder(mk(x))
+					if mj == 2 {
+						d.DecodeByteString()
+					} else {
+						d.DecodeTextString()
+					}
+				})
+			}
+			guard(r, "cbor.Decoder.DecodeByteString/TextString", fmt.Sprintf("declares=2^%d,delivers=nothing", bits(n)), x[:9], 9, func() {
+				d := cbor.NewDecoder(plain(x[:len(rcbor.AppendHead(nil, mj, n))]))
 				if mj == 2 {
 					d.DecodeByteString()
 				} else {
